@@ -35,6 +35,7 @@ def run(ctx, info):
         cases.append((t, rng.choice(gen.ROOTS6), ''))
     # every construct inside every context (deterministic pairwise nesting)
     cases += [(t, r if r in gen.ROOTS6 else 'doc', '') for _, t, r in gen.pairwise_docs()]
+    cases += [(t, gen.ROOTS6[i % 6], '') for i, (_, t, r) in enumerate(gen.fn_nest_docs())]   # nested footnote blocks citing enclosing blocks
     reals = e2e.tie_convert(ctx, drv, cases, failures)
     nexc = 0
     known = {}
